@@ -509,6 +509,30 @@ func managerLevel(c *hx.Ctx) {
 		h.Ops = append(h.Ops, updsim.FinalOps(cfg, []int{103, 0})...)
 		hs = append(hs, h)
 	}
+	{ // a channel with a stored pts but no worker at startup; its first update is ahead of the stored pts
+		cfg := updsim.Config{Base: []int{0, 0, 10}, Dormant: []bool{false, false, true}}
+		h := updsim.History{Cfg: cfg}
+		for i := 1; i <= 10; i++ {
+			h.Log = append(h.Log, E(i, updsim.KCMsg, 2, 10+i, 1))
+		}
+		h.Ops = []updsim.Op{{K: updsim.OpStartup, Vis: []int{0, 0, 10}}, {K: updsim.OpPush, Vis: []int{0, 0, 20}, Items: []int{10}, CID: 1}}
+		h.Ops = append(h.Ops, updsim.FinalOps(cfg, []int{0, 0, 20})...)
+		hs = append(hs, h)
+	}
+	for _, seq := range []int{0, 2} { // the result of our own action overtakes the update before it
+		cfg := updsim.Config{Base: []int{0, 0, 0}}
+		km, ko := updsim.KMsg, updsim.KOther
+		if seq == 2 {
+			km, ko = updsim.KCMsg, updsim.KCOther
+		}
+		h := updsim.History{Cfg: cfg, Log: []updsim.Entry{E(1, km, seq, 1, 1), E(2, ko, seq, 2, 1), E(3, km, seq, 3, 1)}}
+		v := []int{0, 0, 0}
+		v[seq] = 3
+		h.Ops = []updsim.Op{{K: updsim.OpStartup, Vis: []int{0, 0, 0}}, {K: updsim.OpAffected, Vis: v, Items: []int{2}},
+			{K: updsim.OpPush, Vis: v, Items: []int{1}, CID: 1}, {K: updsim.OpPush, Vis: v, Items: []int{3}, CID: 2}}
+		h.Ops = append(h.Ops, updsim.FinalOps(cfg, v)...)
+		hs = append(hs, h)
+	}
 	n := c.N(80, 1500)
 	for i := 0; i < n; i++ {
 		hs = append(hs, updsim.Gen(c.Rng, updsim.GenOpts{MaxEntries: 12, MaxChans: 2}))
@@ -534,7 +558,13 @@ func managerLevel(c *hx.Ctx) {
 			continue
 		}
 		seen := map[string]bool{}
-		for _, f := range append(updsim.CheckAtMostOnce(res), updsim.CheckInOrder(res, nil)...) {
+		fs := append(updsim.CheckAtMostOnce(res), updsim.CheckInOrder(res, nil)...)
+		// "the position never skips silently": after the final recovery a position that was neither
+		// delivered nor reported too long has been skipped
+		for _, f := range updsim.CheckNoLoss(res, nil) {
+			fs = append(fs, updsim.Finding{Sig: "position-skipped-silently:" + f.Sig, Desc: f.Desc})
+		}
+		for _, f := range fs {
 			if !seen[f.Sig] {
 				seen[f.Sig] = true
 				c.Violate(f.Sig, f.Desc+" | trace: "+updsim.TraceString(res.Trace)+" | "+res.H.String(), -1, 0, map[string]interface{}{"manager": res.H})
